@@ -498,6 +498,15 @@ impl FarmWorld {
             } else if site != "collect" && !boosted.is_zero() {
                 tr.fail("C11", "boosted_formula", site, &format!("pools lost {} in an op that pays nothing", boosted));
             }
+            // F of the formula is "the farm's position": every user operation that runs the boosted-yields claim records
+            // the farm-token supply it leaves behind as this week's F (otherwise the week is later divided by a stale or
+            // zero F and its pool is paid wrongly or not at all)
+            if matches!(site, "enter" | "enterOB" | "claim" | "claimOB" | "compound" | "exit" | "claimBoosted") {
+                let f = post.wk(post.week).fsupply;
+                if f != post.sup {
+                    tr.fail("C11", "farm_supply_recorded", site, &format!("week {}: recorded farm supply {} but the farm-token supply is {}", post.week, f, post.sup));
+                }
+            }
             for ((u, w), c) in &l.paid_uw {
                 if *c > 1 {
                     tr.fail("C11", "paid_once", site, &format!("u{} was paid {} times for week {}", u, c, w));
